@@ -16,7 +16,9 @@ pub(crate) use quantity_arg;
 
 macro_rules! scalar_arg {
     ($args:ident) => {
-        quantity_arg!($args).as_scalar().unwrap()
+        quantity_arg!($args)
+            .as_scalar()
+            .map_err($crate::interpreter::RuntimeErrorKind::QuantityError)?
     };
 }
 pub(crate) use scalar_arg;
